@@ -1150,9 +1150,21 @@ def lock11(cfg):
                 res.find(f, e.get('loc'), '%s: when must_restart() reports an obsolete node at %s the function does not return the restart result but loops back to the same lock step: obsolete is final, so the step fails again and again - the operation never returns although no thread holds a lock (a scan spinning on a removed node)' % (f.short, fileline(e.get('loc'))), key='LOCK-11:%s:retry-in-place' % f.short, config=cfg.name)
                 continue
             res.ob(ok, {'rule': 'LOCK-11', 'function': sh(f.name)[:90], 'site': fileline(e.get('loc')), 'test': e['name'], 'returns_on_failing_side': nret, 'verdict': 'restart only' if ok else 'VIOLATION'})
+            acts = False
+            if not ok:
+                # does the failing side go on to CHANGE the tree (take a write guard, store into a node, retire something)?  Only then
+                # is it more than a wrong answer (C03 / C09): a writer acting on a node that failed its lock step unlinks or
+                # retires nodes it has no right to (C04)
+                for x in seen:
+                    for el in f.blocks[x]['elems']:
+                        if el.get('k') != 'call' or is_assert_elem(el):
+                            continue
+                        nm_, cls_ = el.get('name') or '', el.get('cls') or ''
+                        if nm_ in ('try_upgrade_to_write_lock', 'unlock_and_obsolete', 'write_unlock_and_obsolete', 'add_to_nonfull', 'add_or_choose_subtree', 'remove_or_choose_subtree', 'make_db_inode_reclaimable_ptr', 'reclaim_leaf_on_scope_exit') or (el.get('ck') == 'ctor' and 'write_guard' in cls_) or (nm_ == 'operator=' and cls_.startswith('unodb::in_critical_section<')):
+                            acts = True
             if not ok:
                 res.find(f, bad.get('loc'), '%s: after %s() %s at %s the function returns a definitive result instead of the restart result: the lock step has just shown that the data read so far may be inconsistent (the node may be obsolete or being rewritten), so e.g. "key absent" can be reported for a key that is present throughout' % (f.short, e['name'], 'failed' if not failval else 'reported a restart', fileline(e.get('loc'))),
-                         key='LOCK-11:%s:%s' % (f.short, e['name']), config=cfg.name)
+                         key='LOCK-11:%s:%s%s' % (f.short, e['name'], ':acts' if acts else ''), config=cfg.name)
         if used:
             res.functions.add(f.sig)
     res.count('lock-step tests', nsites)
